@@ -386,7 +386,31 @@ class CLCallers(Component):
       if s.dut.deq.rdy(): s.dut.deq()
 
 
+class OnceNoMethods(Component):
+  """update_once blocks in a design WITHOUT method ports: every simulator must run them once per sim_tick"""
+  def construct(s, n):
+    s.in_ = InPort(Bits4)
+    s.mid = Wire(Bits4)
+    s.out = OutPort(Bits4)
+    s.log = []
+
+    @update_once
+    def up_once_a():
+      s.log.append("up_once_a"); s.mid @= s.in_ + 1
+
+    if n == 2:
+      @update_once
+      def up_once_b():
+        s.log.append("up_once_b"); s.out @= s.mid + 1
+    else:
+      @update
+      def up_plain():
+        s.log.append("up_plain"); s.out @= s.mid + 1
+
+
 def handwritten_cases():
+  for n in (1, 2):
+    yield ("once", (n,))
   for wb, rb, fb, sb in itertools.product((0, 1), repeat=4):
     yield ("fl", (wb, rb, fb, sb))
   for q in ("PipeQueueCL", "BypassQueueCL", "NormalQueueCL"):
@@ -402,7 +426,7 @@ def build_hw(kind, args, group, chooser=None):
   from pymtl3.passes.mamba.PassGroups import UnrollSim, HeuTopoUnrollSim, Mamba2020
   from vt import seams
   import pymtl3.stdlib.queues.cl_queues as clq
-  top = FLDesign(*args) if kind == "fl" else CLCallers(getattr(clq, args[0]), args[1])
+  top = FLDesign(*args) if kind == "fl" else (OnceNoMethods(*args) if kind == "once" else CLCallers(getattr(clq, args[0]), args[1]))
   top.elaborate()
   with seams.shuffle_seam(chooser):
     if group == "default": top.apply(DefaultPassGroup())
@@ -416,6 +440,8 @@ def build_hw(kind, args, group, chooser=None):
 def hw_required(kind, args):
   if kind == "fl":
     return [("up_prod", "up_cons0"), ("up_prod", "up_cons1"), ("up_first", "up_second")], 5
+  if kind == "once":
+    return [("up_once_a", "up_once_b" if args[0] == 2 else "up_plain")], 2
   q = args[0]
   if q == "PipeQueueCL": return [("up_deq", "up_enq")], 2
   if q == "BypassQueueCL": return [("up_enq", "up_deq")], 2
@@ -431,7 +457,7 @@ def check_hw(kind, args, acc, only_group=None, choices=None):
       try:
         top = build_hw(kind, args, g, (lambda n: cr.choose(n, 0)) if g in ("simple", "unroll") else None)
       except Exception as ex:
-        acc.violation(f"{kind}:{g}:pass-raised:{args if kind == 'cl' else 'blocking=' + ''.join(map(str, args))}", dict(case, group=g, choices=[p[1] for p in cr.points]),
+        acc.violation(f"{kind}:{g}:pass-raised:{args if kind != 'fl' else 'blocking=' + ''.join(map(str, args))}", dict(case, group=g, choices=[p[1] for p in cr.points]),
                       "the design is scheduled", f"{type(ex).__name__}: {str(ex)[:120]}")
         acc.count("executions")
         return ()
@@ -449,7 +475,7 @@ def check_hw(kind, args, acc, only_group=None, choices=None):
           for a, b in req:
             if pos[a] > pos[b]: bad = ("constraint-violated", f"{a} before {b}", seq); break
         if bad:
-          acc.violation(f"{kind}:{g}:{bad[0]}:{args if kind == 'cl' else 'blocking=' + ''.join(map(str, args))}",
+          acc.violation(f"{kind}:{g}:{bad[0]}:{args if kind != 'fl' else 'blocking=' + ''.join(map(str, args))}",
                         dict(case, group=g, choices=[p[1] for p in cr.points]), bad[1], bad[2])
           break
       acc.count("executions"); acc.count("order_checks", 3)
